@@ -24,6 +24,10 @@ pub fn is_budget(msg: &str) -> bool {
 }
 
 pub fn silence_panics() {
+    // (VERIF_SHOW_PANICS=1: print them, for debugging the harness itself)
+    if std::env::var("VERIF_SHOW_PANICS").is_ok() {
+        return;
+    }
     std::panic::set_hook(Box::new(|_| {}));
 }
 
